@@ -11,6 +11,9 @@ checks = {
  "C03": dict(technique="runtime monitoring: generated slice/string programs executed under real /bin/bash, judged by an independent reference interpreter",
    text="Differential runtime monitoring of slice and string operations: all substring index pairs up to length 12, growth/gap-fill for old lengths 0..12, aliasing chains, copy for all length pairs, range forms, plus a random sweep with arbitrary int index expressions.",
    note="Trusted: RefLang interpreter (slices as shared growable vectors), /bin/bash 5.2. Undefined cases (out-of-range, resize while ranging, copy into longer dst) discarded.", ref="§3 C03"),
+ "C19": dict(technique="runtime monitoring: the built tsh binary run as a process with before/after file-system stamps, the library as byte reference, and strace fault injection on the output write", cat="fault_enumeration",
+   text="Process-level monitor with fault enumeration: generated command lines (option orders, spellings, repeated targets, input names, output directories, stale outputs), 10 accepted and 8 rejected programs, bad options; for each run exit status and recursive before/after stamps of the work tree are judged against the library's output; the write faults enumerated are: output path is a directory, every write() fails with ENOSPC, rename onto the output fails, open/write of the output path fails (strace injection; a run without an injected fault is inconclusive).",
+   note="Trusted: stamps (size, mode, mtime, SHA-256), strace 6.1 injection (verified per run by the (INJECTED) marker), the library as reference.", ref="§3 C19"),
  "C18": dict(technique="runtime monitoring: probe programs invoked by executed scripts record argv, act as tagged pipeline filters and produce requested output/status; logs, stdout and captured values compared with a model",
    text="Probe-based monitor: the harness installs probe programs in the sandbox; argument cells (payloads, every printable character, empty strings, 0-5 arguments) x position x form (literal, variable, run-time, concatenation, call result), program names (identifier, literal paths incl. blanks), pipelines of 1-3 tagged stages, capture with 0-3 trailing newlines, statuses 0..255 on last and non-last stages, statement vs capture, top level vs function; the oracle is a model of the probes (expected argv logs, stdout, captured value and status) plus the sandbox snapshot.",
    note="Trusted: the probe model, sandbox snapshot. Bash only; literal spellings of \" $ ` \\ avoided (C08 finding).", ref="§3 C18"),
